@@ -289,6 +289,13 @@ class FortranAST:
                             child.update_fqsn(parent_scope.FQSN)
                     include_ast.none_scope = parent_scope
                     inc.scope_objs = added_entities
+                else:
+                    # Nothing is declared in the file (any more): what an earlier
+                    # version of it contributed goes
+                    for obj in added_entities:
+                        if parent_scope is not None and obj in parent_scope.children:
+                            parent_scope.children.remove(obj)
+                    inc.scope_objs = []
             elif inc.file is not None:
                 # The included file is gone: so are the entities it contributed
                 for obj in added_entities:
